@@ -26,6 +26,12 @@ static size_t src_cb(void *buf, size_t buf_len, void *user)
 	return k;
 }
 
+static uint16_t icrc_step(uint16_t c, uint8_t b)
+{
+	int i; c ^= b;
+	for (i = 0; i < 8; ++i) c = (c & 1) ? (uint16_t) ((c >> 1) ^ 0xA001) : (uint16_t) (c >> 1);
+	return c;
+}
 static uint64_t evh; static unsigned long evn;
 static void fnv(uint64_t *h, uint64_t v) { int i; for (i = 0; i < 8; ++i) { *h ^= (v >> (8*i)) & 0xff; *h *= 1099511628211ULL; } }
 static void progress_cb(unsigned int block, unsigned int total, void *user)
@@ -41,7 +47,7 @@ int main(void)
 		char *chunks = strtok(NULL, " \n"), *dl = strtok(NULL, " \n"), *reads = strtok(NULL, " \n");
 		char *mon = strtok(NULL, " \n"), *junk = strtok(NULL, " \n");
 		Src src; LHADecoderType *dt; LHADecoder *dec; uint64_t h = 14695981039346656037ULL;
-		size_t total = 0; long monitor_at; unsigned long readno = 0; char *p;
+		size_t total = 0; long monitor_at; uint16_t icrc = 0; unsigned long readno = 0; char *p;
 		uint8_t *small = NULL; size_t small_len = 0; const size_t SMALL = 96;
 		if (!cmd || !junk) { puts("ERR args"); continue; }
 		memset(&src, 0, sizeof(src));
@@ -69,7 +75,7 @@ int main(void)
 				if ((long) readno == monitor_at) lha_decoder_monitor(dec, progress_cb, NULL);
 				got = lha_decoder_read(dec, buf, k);
 				if (got > k) { printf("OVERREAD(%zu>%zu)", got, k); got = k; }
-				for (i = 0; i < got; ++i) { h ^= buf[i]; h *= 1099511628211ULL; if (small_len < SMALL) small[small_len++] = buf[i]; }
+				for (i = 0; i < got; ++i) { h ^= buf[i]; h *= 1099511628211ULL; icrc = icrc_step(icrc, buf[i]); if (small_len < SMALL) small[small_len++] = buf[i]; }
 				total += got;
 				printf("%s%zu", readno ? "," : "", got);
 				free(buf);
@@ -77,8 +83,8 @@ int main(void)
 			}
 		}
 		if ((long) readno == monitor_at) lha_decoder_monitor(dec, progress_cb, NULL);
-		printf(" h=%016llx len=%zu crc=%04x ev=%lu:%016llx", (unsigned long long) h,
-		       lha_decoder_get_length(dec), (unsigned) lha_decoder_get_crc(dec), evn, (unsigned long long) evh);
+		printf(" h=%016llx len=%zu crc=%04x icrc=%04x ev=%lu:%016llx", (unsigned long long) h,
+		       lha_decoder_get_length(dec), (unsigned) lha_decoder_get_crc(dec), (unsigned) icrc, evn, (unsigned long long) evh);
 		fputs(" hex=", stdout); print_hex(small, small_len);
 		printf(" in=%zu\n", src.pos);
 		lha_decoder_free(dec);
